@@ -386,7 +386,9 @@ def stale_objects_edited(g, ordered, vlevel, st, perm):
         g2 = gfapy.Gfa(vlevel=vlevel, version="gfa2")
         for ln in ordered:
             if ln.split("\t")[0] in ("O", "U"):
-                obj = gfapy.Line(ln, vlevel=vlevel, version="gfa2")
+                # (each with a tag of its own whose value is mutable, read once so that it is stored decoded)
+                obj = gfapy.Line(ln + "\tz%d:J:[%d]" % (len(kept), len(kept)), vlevel=vlevel, version="gfa2")
+                obj.get("z%d" % len(kept))
                 kept.append(obj)
                 g2.add_line(obj)
             else:
@@ -396,18 +398,22 @@ def stale_objects_edited(g, ordered, vlevel, st, perm):
     if not o2.ok:
         return
     edited = 0
-    for obj in kept:
+    a = sorted(ob.text_lines(o2.value))
+    for k_, obj in enumerate(kept):
         if not obj.is_connected():
             r = core.call(obj.append_item, "zzq9+") if obj.record_type == "O" else core.call(obj.add_item, "zzq9")
             edited += r.ok
+            v = core.call(obj.get, "z%d" % k_)
+            if v.ok and isinstance(v.value, list):
+                v.value.append(99)
     if not edited:
         return
     st.count("probe.replaced_group_object_edited")
     st.count("oracle.replaced_object_detached")
-    a, b = sorted(ob.text_lines(g)), sorted(ob.text_lines(o2.value))
+    b = sorted(ob.text_lines(o2.value))
     if a != b:
         raise core.Violation("group-follows-replaced-object",
-                             "order %r: after items were appended to the line objects replaced by merged groups the Gfa "
+                             "order %r: after items were appended to the line objects replaced by merged groups (and their tag values edited in place) the Gfa "
                              "writes %r, expected %r" % (perm, [x for x in b if x not in a][:2], [x for x in a if x not in b][:2]),
                              rt="group")
 
